@@ -49,6 +49,10 @@ type Resp struct {
 	// CR: the origin answers 206 with this odd Content-Range value ("<missing>":
 	// no such header, "<empty>": empty value).
 	CR string `json:"cr,omitempty"`
+	// Status: the origin answers with this status instead of 200/206 (a 416 with
+	// "Content-Range: bytes */N", a 200 that carries a Content-Range, ...); CR is then
+	// sent verbatim. Only a 206 has a range start: such a response starts at 0.
+	Status int `json:"status,omitempty"`
 	// OClose: the origin's answer carries "Connection: close" itself.
 	OClose bool `json:"oclose,omitempty"`
 	// LClose: Listener.Close is called (as Proxy.Serve does at shutdown) while
@@ -1049,6 +1053,12 @@ func (w *world) label(o *obs) string {
 		if o.r.CR != "" {
 			base = fr + "odd-content-range"
 		}
+		if o.r.Status != 0 && o.r.Status != 206 {
+			base = fr + "matching-other-status"
+			if o.r.Pat < 0 || wc.cfg.byPat(o.r.Pat) == nil {
+				base = fr + "non-matching"
+			}
+		}
 		if o.r.Star && (o.r.Start > 0 || o.r.P206) {
 			base += "-unknown-total"
 		}
@@ -1325,6 +1335,9 @@ func originResponse(r Resp) []byte {
 	if r.Start > 0 || r.P206 || r.Start < 0 || r.CR != "" {
 		status = "206 Partial Content"
 	}
+	if r.Status != 0 {
+		status = fmt.Sprintf("%d %s", r.Status, http.StatusText(r.Status))
+	}
 	fmt.Fprintf(&b, "HTTP/1.1 %s\r\nX-Origin: yes\r\n", status)
 	if r.OClose {
 		b.WriteString("Connection: close\r\n")
@@ -1432,7 +1445,10 @@ func (w *world) respE2E(wc *wconn, r Resp) {
 	o := &obs{wc: wc, r: r, seq: seq, url: urlFor(r.Pat, seq), start: r.Start, L: r.Body}
 	path := o.url[len("http://"+host):]
 	raw := originResponse(r)
-	if r.CR != "" {
+	if r.Status != 0 && r.Status != 206 {
+		// not a partial response: whatever its Content-Range says, it starts at offset 0
+		r.Start, o.r.Start, o.start = 0, 0, 0
+	} else if r.CR != "" {
 		if crNoStart(r.CR) {
 			r.Start, o.r.Start, o.start = -1, -1, -1
 		} else {
@@ -1498,6 +1514,9 @@ func (w *world) respE2E(wc *wconn, r Resp) {
 	wantStatus := "200"
 	if r.Start > 0 || r.P206 || r.Start < 0 || r.CR != "" {
 		wantStatus = "206"
+	}
+	if r.Status != 0 {
+		wantStatus = strconv.Itoa(r.Status)
 	}
 	if !strings.HasPrefix(lines[0], "HTTP/1.1 "+wantStatus) {
 		fail("status-differs", "status line %q for %s, the origin answered %s", lines[0], o.url, wantStatus)
